@@ -24,6 +24,10 @@ const ALIAS_TARGETS: [&str; 12] = ["kb", "kbs", "kc", "kcs", "b", "bs", "c", "cs
 /// under names that also read as a unit, its plural or a prefixed unit.
 const QNAMES: [&str; 8] = ["q", "r", "as", "bs", "a", "kb", "qs", "kas"];
 const QDIMS: [&str; 4] = ["b", "b^2", "b^-1", "q"];
+/// What may follow a complete currency document: (tail, must the load report it?)
+const JSON_TAILS: [(&str, bool); 14] = [
+    ("", false), ("\n", false), (" \t\r\n", false), ("]", true), ("}", true), ("[]", true), ("null", true), (" x", true), (",", true), ("</html>", true), ("\u{0}", true), ("\n[]\n", true), ("{}", true), ("0", true),
+];
 const DATESOUP: [&str; 17] = ["[", "]", "'", "-", ":", " ", "year", "day", "sec", "offset", "T", "#", "\t", "\u{a0}", "\u{3000}", "\r", "\n"];
 
 #[derive(Clone)]
@@ -50,7 +54,7 @@ pub struct C13 {
 }
 
 const DEVKINDS: [&str; 6] = ["delete line", "duplicate line", "swap with next line", "delete token", "replace number by 0", "replace number by -1"];
-const SUBSTANCE_FILES: [&str; 31] = [
+const SUBSTANCE_FILES: [&str; 33] = [
     // base units and their long names: self-naming, mutual, shadowed by units, used before and after
     "a !a\nb a\n",
     "a !a\n0b a\nzz 3 a\n",
@@ -85,6 +89,9 @@ const SUBSTANCE_FILES: [&str; 31] = [
     "q !\nx ? q^2305843009213693952\ny ? x x\nz ? x / x^-1\nw ? x x x x\n",
     "q !\nx ? q^-2305843009213693952\ny ? x x x x\nz ? 1 / x\nw ? x^-4\n",
     "q !\nx ? q^4611686018427387904\ny ? x x\n",
+    // units named like the previous-answer words (a lookup reads those as the previous answer)
+    "m !meter\nans 42 m\nANS 3 m\n_ 2 m\n",
+    "ans !\n_ !underscore\nx 3 ans\n",
 ];
 
 /// Property values that are zero in some representation (an exact zero, a float zero from a
@@ -328,6 +335,7 @@ impl C13 {
         let at = (ALIAS_NAMES.len() * ALIAS_TARGETS.len()) as u64;
         fams.add("alias graphs through plurals and prefixes: 1 to 3 definitions", vec![at + at * at + if thorough { at * at * at } else { 0 }]);
         fams.add("very long runs of blanks and line continuations", vec![4]);
+        fams.add("currency JSON: a complete document followed by something else", vec![JSON_TAILS.len() as u64 + 1]);
         fams.add("pairs of quantity definitions: name x dimensionality, twice", vec![QNAMES.len() as u64, QDIMS.len() as u64, QNAMES.len() as u64, QDIMS.len() as u64]);
         C13 { fams, files, devs, soup_len, cyc_lens, json_paths: paths, json_cuts, needed, tier: tier.to_string(), name_lens: if thorough { 5 } else { 4 } }
     }
@@ -526,7 +534,7 @@ impl Space for C13 {
         Meta {
             id: "C13",
             level: "exploration",
-            rule: "deviation-bounded: 0 deviations (shipped files) then every single deviation {delete line, duplicate line, swap with next, delete each token, replace each number by 0 / -1} of definitions.units (quick: every 40th line), currency.units and datepatterns.txt; every definitions file of <= 4 (thorough 5) tokens over a 29-token alphabet (incl. the numeral spellings `3.` and `.`), loaded into an empty context and into one holding `m !meter`; dependency cycles of length 1..12, 100, 1000, 2000, 5000 (thorough 10000) through 11 namespace shapes (units, prefixes, quantities, substance property, prefix/plural readings, reverse order, bare aliases, bare aliases that also read as prefix + base unit, prefix<->unit cycles closed by a prefix used as a prefix in both visiting orders, prefixes defined by names carrying the next prefix); forward/backward alias chains of 1000/3000 (thorough also 10000); 31 malformed substance/directive, base-unit long-name, zero-prefix and quantity-power-boundary files (self-naming `a !a`, mutual `a !b; b !a`, long names shadowed by units, prefixes and quantities); substance property values that are zero in 10 representations (exact, float zero from `0^.5`, float underflow `1e-300^1.5`, ...) x 3 positions, which must be reported, plus non-zero controls (`1e-400`), which must load; exponent boundary values (+-2^31, +-2^32, +-2^63, 1e30) on bases 0/1/-1 in prefix, unit, unit-power, substance and quantity definitions; name soups: every file of <= 4 (thorough 5) tokens over a 15-token alphabet of names, plurals, prefixed spellings and `!long` names, after which all 12 names are queried in 3 forms and canonicalized/looked up through the API; alias graphs: 1..2 (thorough 3) definitions `X Y` over 5 names x 12 targets reached through plural and prefix rules; four files with runs of 150000..1000000 blanks/tabs/continuations; every pair of quantity definitions over 8 names (some of which also read as a unit, a plural or a prefixed unit) x 4 dimensionalities, loaded after a base unit, a prefix and a unit (the same dimensionality twice is a reported conflict, after which every name must still answer); currency JSON truncated at every (quick: every 9th) byte, every field deleted or type-replaced (8 edits); date-pattern soups of 4 (thorough 5) tokens over a 17-token alphabet that has every kind of white space (space, tab, NBSP, U+3000, CR, LF). Oracle: the load returns without panic/abort/stack overflow within the limit; a problem is reported when a deleted single-line definition was needed by another and has no other reading, and for every cycle; afterwards `1 + 1` answers 2 and queries for loaded/missing names do not panic. Non-trivial = all; distinct by the text loaded".into(),
+            rule: "deviation-bounded: 0 deviations (shipped files) then every single deviation {delete line, duplicate line, swap with next, delete each token, replace each number by 0 / -1} of definitions.units (quick: every 40th line), currency.units and datepatterns.txt; every definitions file of <= 4 (thorough 5) tokens over a 29-token alphabet (incl. the numeral spellings `3.` and `.`), loaded into an empty context and into one holding `m !meter`; dependency cycles of length 1..12, 100, 1000, 2000, 5000 (thorough 10000) through 11 namespace shapes (units, prefixes, quantities, substance property, prefix/plural readings, reverse order, bare aliases, bare aliases that also read as prefix + base unit, prefix<->unit cycles closed by a prefix used as a prefix in both visiting orders, prefixes defined by names carrying the next prefix); forward/backward alias chains of 1000/3000 (thorough also 10000); 33 malformed substance/directive, base-unit long-name, zero-prefix, quantity-power-boundary and previous-answer-name files (self-naming `a !a`, mutual `a !b; b !a`, long names shadowed by units, prefixes and quantities); substance property values that are zero in 10 representations (exact, float zero from `0^.5`, float underflow `1e-300^1.5`, ...) x 3 positions, which must be reported, plus non-zero controls (`1e-400`), which must load; exponent boundary values (+-2^31, +-2^32, +-2^63, 1e30) on bases 0/1/-1 in prefix, unit, unit-power, substance and quantity definitions; name soups: every file of <= 4 (thorough 5) tokens over a 15-token alphabet of names, plurals, prefixed spellings and `!long` names, after which all 12 names are queried in 3 forms and canonicalized/looked up through the API; alias graphs: 1..2 (thorough 3) definitions `X Y` over 5 names x 12 targets reached through plural and prefix rules; four files with runs of 150000..1000000 blanks/tabs/continuations; every pair of quantity definitions over 8 names (some of which also read as a unit, a plural or a prefixed unit) x 4 dimensionalities, loaded after a base unit, a prefix and a unit (the same dimensionality twice is a reported conflict, after which every name must still answer); currency JSON truncated at every (quick: every 9th) byte, every field deleted or type-replaced (8 edits); date-pattern soups of 4 (thorough 5) tokens over a 17-token alphabet that has every kind of white space (space, tab, NBSP, U+3000, CR, LF). Oracle: the load returns without panic/abort/stack overflow within the limit; a problem is reported when a deleted single-line definition was needed by another and has no other reading, and for every cycle; afterwards `1 + 1` answers 2 and queries for loaded/missing names do not panic. Non-trivial = all; distinct by the text loaded".into(),
             assumptions: vec![
                 "expression nesting depth beyond a few hundred is outside the statement's quantifier (chat-size / realistic files)".into(),
                 "the reporting clause is judged only where the harness can prove the deleted definition has no other reading".into(),
@@ -565,8 +573,14 @@ impl Space for C13 {
             format!("name soup: {:?}", name_soup_text(d[0], (f - ns - 8) as u64))
         } else if f == ns + 9 + self.name_lens {
             format!("alias graph: {:?}", alias_graph_text(d[0]))
-        } else if f == ns + 11 + self.name_lens {
+        } else if f == ns + 12 + self.name_lens {
             format!("quantity pair: {:?}", quantity_pair_text(&d))
+        } else if f == ns + 11 + self.name_lens {
+            if (d[0] as usize) < JSON_TAILS.len() {
+                format!("currency JSON followed by {:?}", JSON_TAILS[d[0] as usize].0)
+            } else {
+                "currency JSON followed by a second copy of itself".to_string()
+            }
         } else if f == ns + 10 + self.name_lens {
             format!("long run #{}: {}", d[0], long_run_text(d[0]).1)
         } else {
@@ -740,13 +754,34 @@ impl Space for C13 {
             ctx.use_humanize = false;
             let (res, printed) = capture_stdout(|| ctx.load_definitions(text));
             let mut out = CaseOut::ok(if res.is_err() || !printed.trim().is_empty() { "substance file: reported" } else { "substance file: silent" }).key(hash64(text));
-            for (s, dt) in canaries(&mut ctx, &["foo", "density of foo", "a of foo", "b of foo", "mass of foo", "p of foo", "q of foo", "3 m foo", "foo -> m", "bar", "2 foo", "foo_mass of foo", "1/m", "1/m^2", "5000 m", "0.002 m", "3 kilom", "1 q", "x", "y", "1/q"]) {
+            for (s, dt) in canaries(&mut ctx, &["foo", "density of foo", "a of foo", "b of foo", "mass of foo", "p of foo", "q of foo", "3 m foo", "foo -> m", "bar", "2 foo", "foo_mass of foo", "1/m", "1/m^2", "5000 m", "0.002 m", "3 kilom", "1 q", "x", "y", "1/q", "search ans", "search an", "search _", "ans", "_", "units for ans", "3 ans -> x"]) {
                 out = out.viol(s, format!("{}: {}", self.describe(idx), dt));
             }
             return out;
         }
-        if f >= ns + 9 && f <= ns + 11 + self.name_lens {
-            let (text, probes): (String, Vec<String>) = if f == ns + 11 + self.name_lens {
+        if f == ns + 11 + self.name_lens {
+            let (tail, must_report): (String, bool) = if (d[0] as usize) < JSON_TAILS.len() {
+                (JSON_TAILS[d[0] as usize].0.to_string(), JSON_TAILS[d[0] as usize].1)
+            } else {
+                (format!("\n{}", CURRENCY_JSON), true)
+            };
+            let text = format!("{}{}", CURRENCY_JSON.trim_end(), tail);
+            let mut ctx = fresh_ctx();
+            let (res, _p) = capture_stdout(|| ctx.load_currency(&text, rink_core::CURRENCY_FILE.unwrap()));
+            let mut out = CaseOut::ok(if res.is_err() { "json with a tail: reported" } else { "json with a tail: accepted" }).key(hash64(&text));
+            if must_report && res.is_ok() {
+                out = out.viol("currency data that continues after a complete document is accepted without a report", self.describe(idx));
+            }
+            if !must_report && res.is_err() {
+                out = out.viol("currency data followed by white space only is refused", format!("{}: {:?}", self.describe(idx), res));
+            }
+            for (s2, dt) in canaries(&mut ctx, &["USD", "3 EUR -> USD", "1 + 1"]) {
+                out = out.viol(s2, format!("{}: {}", self.describe(idx), dt));
+            }
+            return out;
+        }
+        if f >= ns + 9 && f <= ns + 12 + self.name_lens {
+            let (text, probes): (String, Vec<String>) = if f == ns + 12 + self.name_lens {
                 let mut pr: Vec<String> = QNAMES.iter().map(|s| s.to_string()).collect();
                 pr.extend(["b", "bb", "ka", "area of q"].iter().map(|s| s.to_string()));
                 (quantity_pair_text(&d), pr)
